@@ -13,13 +13,16 @@ for f in sys.argv[1:]:
 for md, c in sorted(conf.items()):
     if not c.get("kept"):
         print("skip (not confirmed)", md); continue
-    m = re.search(r'wt_(C\d+)/_mutants/(m\d+)', md)
+    m = re.search(r'wt_(C\d+)/_mutants/(m\d+)', md) or re.search(r'seeded/(C\d+)-(m\d+)', md)
     prop, mid = m.group(1), m.group(2)
     out = f"/verif/seeded/{prop}-{mid}"
     os.makedirs(out, exist_ok=True)
     for fn in ("patch.diff", "demo_test.go", "README.md"):
+        if os.path.abspath(md) == os.path.abspath(out):
+            break
         if os.path.exists(os.path.join(md, fn)) and not (fn == "patch.diff" and os.path.exists(os.path.join(out, "patch.rebased"))):
             shutil.copy(os.path.join(md, fn), os.path.join(out, fn))
+    c["at_commit"] = c.get("at_commit") or os.environ.get("CONFIRMED_AT", "")
     readme = open(os.path.join(md, "README.md")).read() if os.path.exists(os.path.join(md, "README.md")) else ""
     title = readme.strip().split("\n")[0].lstrip("# ").strip()
     needs = ""
@@ -37,6 +40,7 @@ for md, c in sorted(conf.items()):
         "demonstration": {"file": "demo_test.go", "copy_to": c.get("target"), "tests": c.get("tests")},
         "confirmed_by_me": {
             "how": "scripts/confirm_mutants.py in a scratch worktree of /repo (removed afterwards): demo on the unchanged tree, git apply patch.diff, go build ./..., demo again, then the whole existing suite with the patch (go test -mod=mod -vet=off -count=1 ./..., the two ./net tests that fail in this sandbox on the unchanged tree too are ignored)",
+            "repo_commit": c.get("at_commit"),
             "demo_on_unchanged_tree": c.get("demo_on_head"), "build_with_patch": c.get("build"),
             "demo_with_patch": c.get("demo_with_patch"), "existing_suite_with_patch": c.get("suite_with_patch"),
         },
